@@ -23,6 +23,12 @@ SameOutcome(a, b, up) ==        \* two calls end alike (products equal as circle
   /\ a.kind = "error" => a.isa = b.isa /\ Eq(a.attr_ovh, b.attr_ovh)
   /\ a.kind = "product" => IF up THEN CycEq(UpperW(a.seq), UpperW(b.seq)) ELSE CycEq(a.seq, b.seq)
 
+\* the same, for two spellings of the same inputs: also the modules an error names and the order in which a warning lists them
+Opt(r, f) == IF f \in DOMAIN r THEN r[f] ELSE << >>
+SameOutcomeCase(a, b) == /\ SameOutcome(a, b, TRUE)
+                         /\ a.kind = "error" => Opt(a, "dup_ids") = Opt(b, "dup_ids")
+                         /\ a.kind = "product" => Opt(a, "unused_o") = Opt(b, "unused_o")
+
 \* ---- fragment map: where the nucleotides (and so the features) of each input end up -------
 \* piece j of the formula comes from input x = Src(j): fragment [cutA, cutA + Len) of x
 Offsets(pieces) == [j \in 1..Len(pieces) |-> SumSeq([i \in 1..(j - 1) |-> Len(pieces[i])])]
@@ -164,8 +170,12 @@ AssembleFails(e) ==
         \cup (IF e.twin.by = "perm" THEN Chk("C03:OrderIndependent", SameOutcome(out, e.twin.out, FALSE)
                                                  /\ e.twin.out.unused = out.unused) ELSE {})
         \cup (IF e.twin.by = "rot" THEN Chk("C02:RotInvAssembly", SameOutcome(out, e.twin.out, FALSE)) ELSE {})
-        \cup (IF e.twin.by = "case" THEN Chk("C18:CaseInvAssembly", SameOutcome(out, e.twin.out, TRUE)) ELSE {})
-        \cup (IF e.twin.by = "rc" /\ out.kind = "product" /\ g.unused = {}
+        \cup (IF e.twin.by = "case" THEN Chk("C18:CaseInvAssembly", SameOutcomeCase(out, e.twin.out)) ELSE {})
+        \* (spare modules are allowed when the reverse-complemented set cannot run into a duplicate: the END overhangs of the
+        \* supplied modules are pairwise different and no two of them are reverse complements of each other)
+        \cup (IF e.twin.by = "rc" /\ out.kind = "product"
+                 /\ (g.unused = {} \/ ((\A i \in 1..Len(dm) : dm[i].ok)
+                                        /\ \A i, j \in 1..Len(dm) : i # j => ~Eq(dm[i].down, dm[j].down) /\ ~Eq(dm[i].down, RC(dm[j].down))))
               THEN Chk("C12:StrandSymAssembly", e.twin.out.kind = "product" /\ CycEq(e.twin.out.seq, RC(out.seq))) ELSE {})
         \cup (IF e.twin.by = "swap" /\ out.kind = "product" /\ ProductAllowed(g)
               THEN LET nd0 == DecompModule(e.twin.mod.seq, e.enz)
@@ -174,7 +184,10 @@ AssembleFails(e) ==
                    IF nd.ok /\ Len(nd.tgt) >= e.enz.ovh + MinBody /\ Eq(nd.up, dm[j].up) /\ Eq(nd.down, dm[j].down)
                    THEN Chk("C19:Interchange",
                             /\ e.twin.out.kind = "product"
-                            /\ CycEq(e.twin.out.seq, Formula([dm EXCEPT ![j] = nd], dv, g.chain)))
+                            /\ CycEq(e.twin.out.seq, Formula([dm EXCEPT ![j] = nd], dv, g.chain))
+                            \* nothing else of the product depends on the module that was exchanged: its description and the
+                            \* per-letter annotation tracks it carries are those of the original product
+                            /\ Opt(e.twin.out, "desc") = Opt(out, "desc") /\ Opt(e.twin.out, "letters") = Opt(out, "letters"))
                    ELSE {"S:C19Precondition"}
               ELSE {}))
 
